@@ -325,6 +325,16 @@ def gen_edit(rng, segs, mirror):
         h = rng.choice(g["includes"])
         g["includes"] = [i for i in g["includes"] if i != h]
         return {"do": "remove_include", "id": g["id"], "inc": h}
+    if r < 0.96 and len(mirror) >= 2:
+        # b.members = a.members / b.includes = a.includes: ONE list object in two groups from now on
+        a, b = rng.sample(mirror, 2)
+        if rng.random() < 0.7:
+            b["members"] = list(a["members"])
+            return {"do": "share_members", "from": a["id"], "to": b["id"]}
+        if any(reaches(mirror, i, b["id"]) for i in a["includes"]):
+            return None
+        b["includes"] = list(a["includes"])
+        return {"do": "share_includes", "from": a["id"], "to": b["id"]}
     free = [n for n in GROUP_NAMES if n != "all" and first(mirror, n) is None]
     if not free:
         return None
@@ -368,6 +378,12 @@ def gen_history(rng):
 
 
 HISTORY_CORPUS = [
+    {"segs": [0, 1, 2, 3], "kind": "corpus:history-shared-members-list",
+     "groups": [{"id": "prox", "members": [1, 2], "includes": [], "nlex": None},
+                {"id": "dend", "members": [2, 3], "includes": ["prox"], "nlex": None},
+                {"id": "ext", "members": [0], "includes": [], "nlex": None}],
+     "steps": [{"do": "share_members", "from": "dend", "to": "ext"}, {"do": "optimise_one", "id": "dend"},
+               {"do": "optimise_one", "id": "ext"}, {"do": "optimise_all"}]},
     # full pass, then a segment is moved from an included group into the including group, then only
     # that group is optimised (any per-pass state kept on the cell is stale by then)
     {"segs": [0, 1, 2, 3, 4], "kind": "corpus:history-move-then-optimise-one",
